@@ -8,6 +8,7 @@ import (
 	"sync"
 	"sync/atomic"
 	"testing"
+	"time"
 
 	"verifharness/core"
 )
@@ -102,6 +103,84 @@ func TestConcurrent(t *testing.T) {
 			cfg := sys.Config()
 			cfg["pre"] = pre
 			hs = append(hs, LinHistory{Name: fmt.Sprintf("%s#c%d", a.Name(), h), Cfg: cfg, Ops: ops, Final: final})
+			inst.Close()
+		}
+	}
+	// directed schedules through the window between the in-memory allocation and its persistence (pools that expose
+	// a gate on their store): subscriber 1's allocation is parked before its record is written, the SAME subscriber's
+	// release is issued meanwhile (it either runs to the end or waits for the allocation), then another subscriber allocates
+	for _, a := range concurrentAdapters() {
+		sys := NewPoolSystem(a, 3, []string{"alloc", "release"})
+		probe := sys.New().(*poolInst)
+		gated := probe.im.gateSave != nil
+		probe.Close()
+		if !gated {
+			continue
+		}
+		for h, pre := range [][]int{{}, {2}, {2, 3}, {}, {2}} {
+			inside := h >= 3 // the other subscriber's allocation also happens inside the window
+			inst := sys.New().(*poolInst)
+			for _, s := range pre {
+				inst.Apply(core.Event{"op": "alloc", "sub": s, "arg": -1})
+			}
+			prev := make([]int, 3)
+			for s := 1; s <= 3; s++ {
+				prev[s-1] = inst.im.lookup(a.subID(s))
+			}
+			var clock int64
+			var ops []LinOp
+			rec := func(id int, op string, sub int, r map[string]any, inv, ret int) {
+				ops = append(ops, LinOp{ID: id, Op: op, Sub: sub, Arg: -1, Ok: r["ok"].(bool), Unit: r["unit"].(int), Err: r["err"].(string), Fault: r["fault"].(bool), Inv: inv, Ret: ret})
+			}
+			parked, open := inst.im.gateSave()
+			type done struct {
+				r   map[string]any
+				ret int
+			}
+			allocDone, relDone := make(chan done, 1), make(chan done, 1)
+			allocInv := int(atomic.AddInt64(&clock, 1))
+			go func() {
+				r := inst.Apply(core.Event{"op": "alloc", "sub": 1, "arg": -1})
+				allocDone <- done{r, int(atomic.AddInt64(&clock, 1))}
+			}()
+			var ad, rd done
+			select {
+			case <-parked:
+				relInv := int(atomic.AddInt64(&clock, 1))
+				go func() {
+					r := inst.Apply(core.Event{"op": "release", "sub": 1, "arg": -1})
+					relDone <- done{r, int(atomic.AddInt64(&clock, 1))}
+				}()
+				select {
+				case rd = <-relDone: // the release ran to its end inside the window
+					if inside {
+						inv := int(atomic.AddInt64(&clock, 1))
+						r := inst.Apply(core.Event{"op": "alloc", "sub": 3, "arg": -1})
+						rec(4, "alloc", 3, r, inv, int(atomic.AddInt64(&clock, 1)))
+					}
+					open()
+					ad = <-allocDone
+				case <-time.After(300 * time.Millisecond): // the release waits for the allocation (or the machine is slow): let the allocation go on
+					open()
+					ad = <-allocDone
+					rd = <-relDone
+				}
+				rec(1, "alloc", 1, ad.r, allocInv, ad.ret)
+				rec(2, "release", 1, rd.r, relInv, rd.ret)
+			case ad = <-allocDone: // the allocation never reached the store (e.g. pool exhausted)
+				open()
+				rec(1, "alloc", 1, ad.r, allocInv, ad.ret)
+			}
+			inv := int(atomic.AddInt64(&clock, 1))
+			r := inst.Apply(core.Event{"op": "alloc", "sub": 3 - len(pre)%2, "arg": -1})
+			rec(3, "alloc", 3-len(pre)%2, r, inv, int(atomic.AddInt64(&clock, 1)))
+			final := make([]int, 3)
+			for s := 1; s <= 3; s++ {
+				final[s-1] = inst.im.lookup(a.subID(s))
+			}
+			cfg := sys.Config()
+			cfg["pre"] = prev
+			hs = append(hs, LinHistory{Name: fmt.Sprintf("%s#gate%d", a.Name(), h), Cfg: cfg, Ops: ops, Final: final})
 			inst.Close()
 		}
 	}
